@@ -334,6 +334,7 @@ pub fn record(args: &[String]) {
 		if std::env::var("YV_FORCE_DROP").is_ok() {
 			g.force_drop_at = Some(60);
 		}
+		g.long_regimes = std::env::var("YV_LONG_REGIMES").is_ok();
 		let first = g.candle();
 		let inst = catch(|| cfg.init(&first));
 		let res = match &inst {
@@ -567,6 +568,7 @@ pub fn api_replay(args: &[String]) {
 	let mut out = Sink::new();
 	let mut rng = Rng::new(seed ^ 0xa91);
 	let mut runs = 0u64;
+	let mut shape_steps = 0u64;
 	for name in NAMES {
 		for variant in 0..2 {
 			let cfg = random_cfg(name, &mut rng, variant == 1);
@@ -594,6 +596,21 @@ pub fn api_replay(args: &[String]) {
 			// every result carries exactly size() values and signals
 			for (i, y) in ys.iter().enumerate() {
 				out.cmp(&format!("{name}:result-shape:value"), || json!({"step": i}), &json!([cfg.size().0, cfg.size().1]), &y["size"]);
+			}
+			// ... on long streams too, with untraded stretches (runs of zero-volume candles) and flat prices
+			for sweep in 0..3u64 {
+				let mut g2 = Gen::new(rng.u64(), true);
+				g2.droughts = true;
+				let first = if sweep == 0 { let mut c0 = g2.candle(); c0.volume = 0.0; c0 } else { g2.candle() };
+				let Ok(Ok(mut i2)) = catch(|| cfg.init(&first)) else { continue };
+				let mut cand = first;
+				for step in 0..400 {
+					let r = catch(std::panic::AssertUnwindSafe(|| result_bits(&i2.next(&cand))));
+					let Ok(y) = r else { break };
+					shape_steps += 1;
+					out.cmp(&format!("{name}:result-shape:value"), || json!({"step": step, "sweep": sweep, "cfg": cfg.to_json()}), &json!([cfg.size().0, cfg.size().1]), &y["size"]);
+					cand = g2.candle();
+				}
 			}
 			// init_fn over the whole stream
 			match catch(|| cfg.init_fn_run(&cs)) {
@@ -630,7 +647,7 @@ pub fn api_replay(args: &[String]) {
 			}
 		}
 	}
-	out.summary(json!({"programs": progs.len(), "indicators": NAMES.len(), "runs": runs}));
+	out.summary(json!({"programs": progs.len(), "indicators": NAMES.len(), "runs": runs, "shape_steps": shape_steps}));
 }
 
 /// class of a panic message (the site inside the crate that gave up)
